@@ -1319,6 +1319,7 @@ pub struct Ctx {
 }
 
 pub fn exec(ctx: &mut Ctx, op: &str, out: &mut Out) -> String {
+    let _crumb = crate::common::crumb::guard(op);
     let w: Vec<&str> = op.split(' ').collect();
     assert_eq!(w[0], "derive");
     if w[1] == "new" {
